@@ -32,4 +32,24 @@ def trimSpace (s : List Char) : List Char := ((s.dropWhile isSpace).reverse.drop
 result-name rule) -/
 def limitName (max : Nat) (s : List Char) : List Char := if s.length > max then trimSpace (s.take max) else s
 
+/-! ### order of the nodes of a migrated legacy flow (`legacy.migrateNodes`)
+
+The migrated nodes (action sets, then rule sets, in the order given) are arranged with the flow's entry
+node first — a flow starts at its first node — and the others after it by their vertical position on
+the canvas, stably (`sort.SliceStable`). -/
+
+/-- a migrated node: its UUID (an identifier) and its `y` -/
+abbrev LNode := Nat × Int
+
+def leY (a b : LNode) : Bool := decide (a.2 ≤ b.2)
+
+/-- `entryNodes`: the (last) node with the entry's UUID, if there is one -/
+def entryPart (entry : Nat) (nodes : List LNode) : List LNode :=
+  match (nodes.filter (fun n => n.1 == entry)).getLast? with
+  | some n => [n]
+  | none => []
+
+def legacyOrder (entry : Nat) (nodes : List LNode) : List LNode :=
+  entryPart entry nodes ++ (nodes.filter (fun n => !(n.1 == entry))).mergeSort leY
+
 end GoflowModel.Migrate
